@@ -7,6 +7,7 @@ the theorems quantify over every interleaving, any number of callers, any
 order and content of reply frames.
 -/
 import PubModel.C03.Preserve
+import PubModel.C03.Liveness
 import PubModel.C13.Theorems
 import PubModel.Gen.Transport
 
